@@ -47,6 +47,7 @@ func c01Params(e *Env) fwdParams {
 		Compression:  []string{"", "", "lz4", "snappy"},
 		Versions:     []primitive.ProtocolVersion{primitive.ProtocolVersion4, primitive.ProtocolVersion4, primitive.ProtocolVersion3},
 		Disconnects:  true,
+		DupPrepares:  true,
 	}
 	if e.Tier == "thorough" {
 		p.Clients = 1 + c.Choose("clients2", 6)
